@@ -1102,6 +1102,9 @@ func compileNumberForStmt(context *funcContext, stmt *ast.NumberForStmt) { // {{
 	context.LeaveBlock()
 
 	flpc := code.LastPC()
+	if flpc-bodypc+1 > opMaxArgSbx {
+		raiseCompileError(context, sline(stmt), "control structure too long")
+	}
 	code.AddASbx(OP_FORLOOP, rindex, bodypc-(flpc+1), sline(stmt))
 
 	context.SetLabelPc(endlabel, code.LastPC())
